@@ -7,6 +7,7 @@ import (
 	"bufio"
 	"fmt"
 	"io"
+	"os"
 	"os/exec"
 	"strconv"
 	"strings"
@@ -56,6 +57,11 @@ func solverCmd(name string) (string, []string) {
 func NewSolver(ts *Terms, name string, timeoutMs int) (*Solver, error) {
 	bin, args := solverCmd(name)
 	s := &Solver{ts: ts, bin: bin, args: args, TimeoutMs: timeoutMs}
+	if lp := os.Getenv("SVER_SMTLOG"); lp != "" {
+		if f, err := os.Create(lp); err == nil {
+			s.Log = f
+		}
+	}
 	if err := s.start(); err != nil {
 		return nil, err
 	}
@@ -257,7 +263,10 @@ func (s *Solver) readModel() []uint64 {
 			break
 		}
 	}
-	txt := sb.String()
+	return s.parseModel(sb.String())
+}
+
+func (s *Solver) parseModel(txt string) []uint64 {
 	model := make([]uint64, len(s.ts.Vars))
 	idx := map[string]int{}
 	for i, v := range s.ts.Vars {
@@ -293,4 +302,87 @@ func (s *Solver) readModel() []uint64 {
 		}
 	}
 	return model
+}
+
+// CheckOneShot decides t in a fresh solver process (non-incremental: the
+// solver can use its full bit-vector preprocessing), with a time limit.
+func (s *Solver) CheckOneShot(t *Term, wantModel bool, timeoutMs int) (SatResult, []uint64) {
+	if t.IsConst() && t.C == 0 {
+		return Unsat, nil
+	}
+	var sb strings.Builder
+	sb.WriteString("(set-option :produce-models true)\n")
+	if s.bin != "cvc5" {
+		fmt.Fprintf(&sb, "(set-option :timeout %d)\n", timeoutMs)
+	} else {
+		sb.WriteString("(set-logic QF_BV)\n")
+	}
+	sb.WriteString(s.ts.VarDecls())
+	s.ts.DefsAll(t, &sb)
+	sb.WriteString("(assert " + s.ts.ref(t) + ")\n(check-sat)\n")
+	if wantModel && len(s.ts.Vars) > 0 {
+		sb.WriteString("(get-value (")
+		for _, v := range s.ts.Vars {
+			sb.WriteString(v.Name + " ")
+		}
+		sb.WriteString("))\n")
+	}
+	sb.WriteString("(exit)\n")
+	t0 := time.Now()
+	args := append([]string{}, s.args...)
+	if s.bin == "cvc5" {
+		args = append(args, fmt.Sprintf("--tlimit=%d", timeoutMs))
+	}
+	cmd := exec.Command(s.bin, args...)
+	cmd.Stdin = strings.NewReader(sb.String())
+	done := make(chan struct{})
+	var out []byte
+	go func() { out, _ = cmd.Output(); close(done) }()
+	select {
+	case <-done:
+	case <-time.After(time.Duration(timeoutMs+5000) * time.Millisecond):
+		if cmd.Process != nil {
+			cmd.Process.Kill()
+		}
+		<-done
+	}
+	s.Queries++
+	ms := float64(time.Since(t0).Microseconds()) / 1000
+	s.TotalMs += ms
+	if ms > s.MaxMs {
+		s.MaxMs = ms
+	}
+	txt := string(out)
+	lines := strings.Split(txt, "\n")
+	res := Unknown
+	rest := ""
+	for i, l := range lines {
+		l = strings.TrimSpace(l)
+		if strings.HasPrefix(l, "(error") {
+			s.Errors = append(s.Errors, l)
+			return Unknown, nil
+		}
+		if l == "sat" || l == "unsat" || l == "unknown" || l == "timeout" {
+			switch l {
+			case "sat":
+				res = Sat
+			case "unsat":
+				res = Unsat
+			}
+			rest = strings.Join(lines[i+1:], "\n")
+			break
+		}
+	}
+	switch res {
+	case Sat:
+		s.NSat++
+	case Unsat:
+		s.NUnsat++
+	default:
+		s.NUnknown++
+	}
+	if res == Sat && wantModel {
+		return res, s.parseModel(rest)
+	}
+	return res, nil
 }
